@@ -813,6 +813,8 @@ func specList(entry, proto string, thorough bool, rng *rand.Rand) []spec {
 		rest = 300
 	}
 	out = append(out, prngSpecs(role, rng, rest*2/3, rest-rest*2/3)...)
+	// after everything else: the indices of the inputs above stay what they were
+	out = append(out, edgeSpecs(role, proto, thorough)...)
 	return out
 }
 
